@@ -1,4 +1,5 @@
 import PelProofs.Select
+import PelProofs.Main
 import PelGen.Live
 /-
   C07 — PEL selection follows the documented class, severity and only-rules.
@@ -105,5 +106,113 @@ example : considerPEL 0x40 0xA000 {} = true ∧ considerPEL 0x40 0x6000 {} = fal
     considerPEL 0x40 0x6000 { hidden := true } = true ∧
     considerPEL 0x40 0xA000 { only := true, severities := [5] } = false ∧
     considerPEL 0x51 0x4000 { only := true, term := true } = true := by decide
+
+/-! ### `main()`: from the command line to the `Config` that `considerPEL` receives (model: PelModel/Main.lean) -/
+
+/-- the table `mkConfig` is applied to in `dispatch` is the live `severityGroupValues` (names, order, digits) -/
+theorem pin_main_severity_table : ∀ v ∈ Live.severityGroupValues, v = severityGroupTable := by decide
+
+/-- ★ the block of `if args.x: config.x = …` statements sets every selection member of the `Config` to exactly the corresponding
+    switch; `-S` names are translated through the table in the order given, duplicates kept; no look-up id is set there; and the
+    non-selection members are `-P`, `-x`, `-r` and a non-empty `-e` -/
+theorem main_config_switches (t : List (Text × Nat)) (a : Args) :
+    (mkConfig t a).sel.every = a.every ∧ (mkConfig t a).sel.term = a.term ∧
+    (mkConfig t a).sel.serviceable = a.serviceable ∧ (mkConfig t a).sel.nonServiceable = a.nonServiceable ∧
+    (mkConfig t a).sel.hidden = a.hidden ∧ (mkConfig t a).sel.only = a.only ∧
+    (mkConfig t a).sel.severities = a.severities.filterMap (sevLookup t) ∧
+    (mkConfig t a).sel.lookup = false ∧
+    (mkConfig t a).allowPlugins = (!a.skipPlugins) ∧ (mkConfig t a).hex = a.hex ∧ (mkConfig t a).rev = a.reverse ∧
+    (mkConfig t a).ext = tv a.extension := by
+  rw [mkConfig_eq]
+  exact ⟨rfl, rfl, rfl, rfl, rfl, rfl, rfl, rfl, rfl, rfl, rfl, rfl⟩
+
+/-- argparse only admits names that are keys of the table (`choices`): then no name is dropped, position by position -/
+theorem main_severities_all_translated (t : List (Text × Nat)) (a : Args)
+    (h : ∀ n ∈ a.severities, ∃ g, sevLookup t n = some g) :
+    (mkConfig t a).sel.severities.map some = a.severities.map (sevLookup t) := by
+  rw [(main_config_switches t a).2.2.2.2.2.2.1]
+  generalize a.severities = l at h
+  induction l with
+  | nil => rfl
+  | cons n ns ih =>
+    obtain ⟨g, hg⟩ := h n (List.mem_cons_self ..)
+    rw [List.filterMap_cons, hg, List.map_cons, List.map_cons, hg, ih (fun m hm => h m (List.mem_cons_of_mem _ hm))]
+
+/-- with no selection option on the command line the selection part of the `Config` is the default one … -/
+theorem main_default_config (t : List (Text × Nat)) (a : Args)
+    (h : a.every = false ∧ a.term = false ∧ a.serviceable = false ∧ a.nonServiceable = false ∧ a.hidden = false ∧
+         a.only = false ∧ a.severities = []) :
+    (mkConfig t a).sel = {} := by
+  obtain ⟨h1, h2, h3, h4, h5, h6, h7⟩ := h
+  rw [mkConfig_eq]
+  simp [h1, h2, h3, h4, h5, h6, h7]
+
+/-- ★ `config.pelID / bmcID / plid / src / srcExcludeFile` is set exactly in the five look-up branches (and in the `--src-exclude`
+    branch the assignment precedes the file test, so it is also set when `main` exits there); everything else in the `Config` is
+    what `mkConfig` computed -/
+theorem main_lookup_flag (fs : FsView) (a : Args) :
+    ((dispatch fs a).2.sel.lookup = true ↔
+      ((dispatch fs a).1.isLookup = true ∨ ∃ f, (dispatch fs a).1 = .exitMsg (.noExcludeFile f))) ∧
+    (dispatch fs a).2 = { mkConfig severityGroupTable a with
+                          sel := { (mkConfig severityGroupTable a).sel with lookup := (dispatch fs a).2.sel.lookup } } := by
+  constructor
+  · have h := dispatch_chain fs a
+    generalize (dispatch fs a).1 = act at h
+    generalize (dispatch fs a).2.sel.lookup = lk at h
+    cases h <;> simp [Action.isLookup]
+  · rcases dispatch_cfg fs a with h | h
+    · rw [h, mkConfig_lookup]
+      have := mkConfig_lookup severityGroupTable a
+      generalize mkConfig severityGroupTable a = c at this ⊢
+      obtain ⟨⟨_, _, _, _, _, _, _, _⟩, _, _, _, _⟩ := c
+      simp only at this; subst this; rfl
+    · rw [h]; rfl
+
+/-- whenever `main` actually calls a function, the look-up flag is set iff that function is one of the five look-ups -/
+theorem main_lookup_flag_called (fs : FsView) (a : Args) (h : ∀ m, (dispatch fs a).1 ≠ .exitMsg m) :
+    (dispatch fs a).2.sel.lookup = true ↔ (dispatch fs a).1.isLookup = true := by
+  rw [(main_lookup_flag fs a).1]
+  constructor
+  · rintro (h1 | ⟨f, hf⟩)
+    · exact h1
+    · exact absurd hf (h _)
+  · exact Or.inl
+
+/-- … so for the plain command line (`-l`, `-n`, `-a`, `-j`, `-f` with no selection option) exactly the serviceable,
+    customer-viewable PELs are selected: `default_is_serviceable_visible` applies to what `main` passes on -/
+theorem main_plain_command_line (fs : FsView) (a : Args) (sev af : Nat)
+    (h : a.every = false ∧ a.term = false ∧ a.serviceable = false ∧ a.nonServiceable = false ∧ a.hidden = false ∧
+         a.only = false ∧ a.severities = [])
+    (hl : (dispatch fs a).1.isLookup = false) (hx : ∀ f, (dispatch fs a).1 ≠ .exitMsg (.noExcludeFile f)) :
+    considerPEL sev af (dispatch fs a).2.sel = (specServiceable sev af && !specHidden af) := by
+  have hlk : (dispatch fs a).2.sel.lookup = false := by
+    cases hb : (dispatch fs a).2.sel.lookup with
+    | false => rfl
+    | true =>
+      rcases (main_lookup_flag fs a).1.mp hb with h1 | ⟨f, hf⟩
+      · rw [hl] at h1; exact absurd h1 (by decide)
+      · exact absurd hf (hx f)
+  rw [(main_lookup_flag fs a).2, hlk, main_default_config _ a h]
+  exact default_is_serviceable_visible sev af
+
+/-- … and a look-up given without selection options considers every PEL (`lookup_considers_all` applies) -/
+theorem main_lookup_command_line (fs : FsView) (a : Args) (sev af : Nat)
+    (h : a.every = false ∧ a.term = false ∧ a.serviceable = false ∧ a.nonServiceable = false ∧ a.hidden = false ∧
+         a.only = false ∧ a.severities = [])
+    (hl : (dispatch fs a).1.isLookup = true) :
+    considerPEL sev af (dispatch fs a).2.sel = true := by
+  have hlk : (dispatch fs a).2.sel.lookup = true := (main_lookup_flag fs a).1.mpr (Or.inl hl)
+  rw [(main_lookup_flag fs a).2, hlk, main_default_config _ a h]
+  exact lookup_considers_all sev af
+
+/-! Non-vacuity: `-p /pels -l -O -S Critical Informational Critical -r -e .pel`, and `-p /pels --plid 50000001 -H`. -/
+example : mkConfig severityGroupTable { only := true, severities := [s "Critical", s "Informational", s "Critical"],
+                                        reverse := true, extension := some (s ".pel"), skipPlugins := true } =
+    { sel := { only := true, severities := [5, 0, 5] }, rev := true, ext := some (s ".pel"), allowPlugins := false } := by decide
+example : mkConfig severityGroupTable { extension := some [] } = {} := by decide
+example : dispatch { isDir := fun _ => true, isFile := fun _ => true } { path := some (s "/pels"), plid := some (s "50000001"), hidden := true } =
+    (.plidMode (s "/pels") (s "50000001"), { sel := { hidden := true, lookup := true } }) := by decide
+example : (dispatch { isDir := fun _ => true, isFile := fun _ => true } { path := some (s "/pels"), file := some (s "x"), plid := some (s "50000001") }).2.sel.lookup
+    = false := by decide
 
 end Pel.C07
